@@ -60,7 +60,11 @@ const (
 	bForeign = "lists-versions-outside-1.x"
 )
 
-var behaviours = []string{bConformant, bUnsupported, bNotOffered, bUnordered, bEmpty, bLibraryExec, bHangsUp, bForeign}
+var behaviours = []string{bConformant, bUnsupported, bNotOffered, bUnordered, bEmpty, bLibraryExec, bHangsUp, bForeign, bUnsupportedNoOp}
+
+// bUnsupportedNoOp: discovery unsupported, said by a failed item that names no operation (the Operation field of a response
+// item is optional when the request could not be processed; a gateway in front of the server answers like that)
+const bUnsupportedNoOp = "discovery-unsupported-operation-not-echoed"
 
 type c13Case struct {
 	ClientMask int    `json:"client_set_mask"` // bit i = version 1.i
@@ -168,6 +172,9 @@ func (s *negServer) serve(c net.Conn) {
 			return
 		case s.c.Behaviour == bLibraryExec:
 			resp = s.exec.HandleRequest(context.Background(), &req)
+		case isDiscover && s.c.Behaviour == bUnsupportedNoOp:
+			resp = &kmip.ResponseMessage{Header: kmip.ResponseHeader{ProtocolVersion: req.Header.ProtocolVersion, BatchCount: 1, TimeStamp: time.Unix(0, 0)},
+				BatchItem: []kmip.ResponseBatchItem{{ResultStatus: kmip.ResultStatusOperationFailed, ResultReason: kmip.ResultReasonOperationNotSupported, ResultMessage: "not supported"}}}
 		case isDiscover && s.c.Behaviour == bUnsupported:
 			resp = &kmip.ResponseMessage{Header: kmip.ResponseHeader{ProtocolVersion: req.Header.ProtocolVersion, BatchCount: 1, TimeStamp: time.Unix(0, 0)},
 				BatchItem: []kmip.ResponseBatchItem{{Operation: kmip.OperationDiscoverVersions, ResultStatus: kmip.ResultStatusOperationFailed, ResultReason: kmip.ResultReasonOperationNotSupported, ResultMessage: "not supported"}}}
@@ -267,7 +274,7 @@ func c13Run(c c13Case) (sig string, err error) {
 	switch {
 	case enforced != nil:
 		want = enforced
-	case c.Behaviour == bUnsupported:
+	case c.Behaviour == bUnsupported || c.Behaviour == bUnsupportedNoOp:
 		if contains(clientSet, kmip.V1_0) {
 			v := kmip.V1_0
 			want = &v
@@ -366,7 +373,7 @@ func c13Run(c c13Case) (sig string, err error) {
 
 func TestC13Negotiation(t *testing.T) {
 	const name = "TestC13Negotiation"
-	rec := evid.New("C13", name, "exhaustive: 31 non-empty client sets x 32 server sets x 8 server behaviours (conformant descending intersection, discovery unsupported, lists versions not offered, unordered list, empty list, hanging up on every discovery request, listing 2.1, 2.0 and 0.9 around the common versions, the library's own BatchExecutor restricted to the set, also after an earlier client with another set has negotiated with the same executor) without enforcement, "+
+	rec := evid.New("C13", name, "exhaustive: 31 non-empty client sets x 32 server sets x 9 server behaviours (conformant descending intersection, discovery unsupported (the failed item naming the operation or not), lists versions not offered, unordered list, empty list, hanging up on every discovery request, listing 2.1, 2.0 and 0.9 around the common versions, the library's own BatchExecutor restricted to the set, also after an earlier client with another set has negotiated with the same executor) without enforcement, "+
 		"plus the same client set handed over through up to five other option layouts (descending, one WithKmipVersions option per version, two halves, highest first with a duplicate, rotated) against the conformant, unordered and library servers, plus clients with default options (no version option at all) against every server, plus clients created with DialCluster against the conformant, discovery-less and library servers, plus 31 x 32 x 5 enforced versions against the conformant server (the EnforceVersion option before or after the version-set options, also with every option layout); each followed by two requests, a batch containing a Discover Versions item, and a clone; oracle: pure function of the configuration (highest common version / fallback to 1.0 / failure); "+
 		"non-trivial = the intersection has >= 2 elements, or the server lists a version outside the client's set, or the list is unordered; distinct by case").Attach(t)
 	rec.Exhaustive(true)
